@@ -9,7 +9,7 @@ fed to the Coq model. See harness/src/repo.rs and harness/src/client.rs for the 
 import urllib.parse
 
 FAR = 86400 * 365 * 5
-FIXED = [1, 1, 1, 1, 1, 1]
+FIXED = [1, 1, 1, 1, 1, 1, 1]
 ROLES = ["root", "snapshot", "targets", "timestamp"]
 DEFAULT_ROLES = {"root": ([0], 1), "snapshot": ([1], 1), "targets": ([2], 1), "timestamp": ([3], 1)}
 
@@ -93,18 +93,25 @@ def top_files(cs, ts, snap, snap_v, tgt, tgt_v, roots=(), delegated=()):
 
 
 def simple_repo(s, cs=False, versions=(1, 1, 1, 1), roles=None, root=None, lengths="exact", hashes="exact",
-                targets=None, signers=None):
-    """versions = (timestamp, snapshot, targets, snapshot-listed targets). Returns (root, files)."""
+                targets=None, signers=None, delegate=None):
+    """versions = (timestamp, snapshot, targets, snapshot-listed targets). Returns (root, files).
+    delegate: name of one delegated role (version 9, key 7, no targets) the top-level role delegates to."""
     tsv, snv, tgv, listed = versions
     signers = signers or {"snapshot": [1], "targets": [2], "timestamp": [3]}
     r = root if root is not None else s.root(cs=cs, roles=roles)
+    deleg, dl, metas = None, [], {}
+    if delegate is not None:
+        leaf = s.targets(version=9, targets=[], sigs=valid([7]))
+        deleg = {"keys": [7], "roles": [{"name": delegate, "keyids": [7], "threshold": 1, "paths": ["zz/*"]}]}
+        dl = [(delegate, 9, leaf)]
+        metas[delegate + ".json"] = meta(leaf, 9, lengths, hashes)
     tgt = s.targets(version=tgv, targets=targets or [{"name": "file.txt", "content": "hello"}],
-                    sigs=valid(signers["targets"]))
-    snap = s.snapshot(version=snv, meta={"targets.json": meta(tgt, listed, lengths, hashes)},
-                      sigs=valid(signers["snapshot"]))
+                    sigs=valid(signers["targets"]), **({"delegations": deleg} if deleg else {}))
+    metas["targets.json"] = meta(tgt, listed, lengths, hashes)
+    snap = s.snapshot(version=snv, meta=metas, sigs=valid(signers["snapshot"]))
     ts = s.timestamp(version=tsv, meta={"snapshot.json": meta(snap, snv, lengths, hashes)},
                      sigs=valid(signers["timestamp"]))
-    files = top_files(cs, ts, snap, snv, tgt, listed)
+    files = top_files(cs, ts, snap, snv, tgt, listed, delegated=dl)
     return r, files
 
 
